@@ -49,18 +49,22 @@ try:
         missing = sorted(set(b["stable_pass"]) - passed)
         out["suite_missing"] = missing[:10]
         out["suite_ok"] = not missing
-    # /verif checks against the patched tree
+    # /verif checks against the patched tree (relative to what they report on the unpatched HEAD)
+    head = subprocess.run(["git", "-C", "/repo", "rev-parse", "HEAD"], capture_output=True, text=True).stdout.strip()
+    base_file = Path(f"/tmp/vwt_baseline_{head[:10]}.json")
+    baseline = json.loads(base_file.read_text()) if base_file.exists() else {}
     fired = {}
     venv = dict(os.environ, VERIF_REPO=str(wt))
     for pid in [f"C{i:02d}" for i in range(1, 21)]:
         if not Path(f"/verif/sa/rules/{pid.lower()}.py").exists():
             continue
-        p = subprocess.run(["/venv/bin/python", "-c", f"import sys; sys.path.insert(0,'/verif'); from sa.run import run_property; from sa.model import AnalysisError\ntry:\n    code, rep = run_property('{pid}', 'quick', quiet=True, write=False)\n    kn, new = rep.split_known()\n    print('RESULT', code, '|'.join(f.key for f in new))\nexcept AnalysisError as e:\n    print('RESULT', 2, 'ANALYSIS-ERROR: ' + str(e)[:200])"],
+        p = subprocess.run(["/venv/bin/python", "-c", f"import sys, json; sys.path.insert(0,'/verif'); from sa.run import run_property; from sa.model import AnalysisError\ntry:\n    code, rep = run_property('{pid}', 'quick', quiet=True, write=False)\n    kn, new = rep.split_known()\n    print('RESULT', json.dumps([code, [f.key for f in new]]))\nexcept AnalysisError as e:\n    print('RESULT', json.dumps([2, ['ANALYSIS-ERROR: ' + str(e)[:200]]]))"],
                            capture_output=True, text=True, env=venv, cwd="/verif")
-        line = next((l for l in p.stdout.splitlines() if l.startswith("RESULT")), "RESULT 3 crash:" + p.stderr[-200:])
-        _, code, keys = line.split(" ", 2) if line.count(" ") >= 2 else (line.split(" ") + [""])[:3]
-        if code != "0":
-            fired[pid] = {"exit": int(code), "keys": keys[:600]}
+        line = next((l for l in p.stdout.splitlines() if l.startswith("RESULT")), None)
+        code, keys = json.loads(line[7:]) if line else (3, ["CRASH " + p.stderr[-200:]])
+        newk = [k for k in keys if k not in baseline.get(pid, [])]
+        if code != 0 and newk:
+            fired[pid] = {"exit": code, "keys": newk[:8]}
     out["checks_fired"] = fired
     out["caught_by_own_property"] = prop in fired
     subprocess.run(["git", "-C", str(wt), "checkout", "--", "."], check=True)
